@@ -141,6 +141,25 @@ func smtFaults() []smtFault {
 			s.is = o
 			res.mode = r.Pick([]string{"unpublished", "nil"})
 		}},
+		{name: "did-url-smuggles-a-published-state", apply: func(s *verifySetup, p *verifiable.Iden3SparseMerkleTreeProof, res *resolverCfg, r *Rng) {
+			// a private, never published tree holding the claim; the issuer id is a DID URL that names a state the victim did publish
+			victimState := p.IssuerData.State.Value
+			o := NewIssuer(r, 3)
+			np, err := o.IssueSMT(s.claim)
+			if err != nil {
+				return
+			}
+			*p = *np
+			h, _ := merkletree.NewHashFromHex(*victimState)
+			p.IssuerData.ID = s.is.did.String() + "?state=" + h.Hex()
+			*res = resolverCfg{mode: "unpublished", perState: map[string]string{h.Hex(): "published"}}
+		}},
+		{name: "did-url-with-own-state-query", benign: true, apply: func(s *verifySetup, p *verifiable.Iden3SparseMerkleTreeProof, res *resolverCfg, r *Rng) {
+			// harmless: the DID URL already carries the proof's own state
+			h, _ := merkletree.NewHashFromHex(*p.IssuerData.State.Value)
+			p.IssuerData.ID = s.is.did.String() + "?state=" + h.Hex()
+			*res = resolverCfg{mode: "unpublished", perState: map[string]string{h.Hex(): "published"}}
+		}},
 		{name: "rev-root-replaced", apply: func(s *verifySetup, p *verifiable.Iden3SparseMerkleTreeProof, res *resolverCfg, r *Rng) {
 			p.IssuerData.State.RevocationTreeRoot = hexOfInt(r.BigBelow(poseidonQ()))
 		}},
@@ -209,7 +228,7 @@ func emitSMT(out *Out, r *Rng, f smtFault, nclaims int) {
 	impl := classify(verr)
 	st := p.IssuerData.State
 	in := J{"fault": f.name, "issuer": J{"didOk": didParses(p.IssuerData.ID), "state": treeStateJ(st.Value, st.ClaimsTreeRoot, st.RevocationTreeRoot, st.RootOfRoots)},
-		"mtp": proofJSON(p.MTP), "resolved": res.J(), "genesis": genesisOracle(p.IssuerData.ID, st.Value)}
+		"mtp": proofJSON(p.MTP), "resolved": res.J(st.Value), "genesis": genesisOracle(p.IssuerData.ID, st.Value)}
 	// the claim carried by the proof (hi, hv by go-iden3-core directly) and whether it is bound to the credential
 	pc, cerr := p.GetCoreClaim()
 	bound := false
